@@ -1038,14 +1038,9 @@ impl<T: PackedInt> IntVec<T> {
             return CompressionStrategy::MinMax { min_val, bit_width };
         }
 
-        // For slightly larger small datasets, use optimized block compression
-        // Use 64 blockUnits (not 128) for better small dataset performance
-        CompressionStrategy::BlockBased {
-            block_size: BlockSize::Block64,  // 🚀 64 units for small data
-            offset_width: bit_width.min(8),  // Limit offset width for efficiency
-            sample_width: 4,                 // Fixed small sample width
-            is_sorted,                       // Use actual sorted detection
-        }
+        // Wider ranges keep the exact min-max width as well: a block layout with the
+        // offset width capped at 8 bits and 4-bit samples cannot represent the values
+        CompressionStrategy::MinMax { min_val, bit_width }
     }
 
     /// 🚀 BULK-OPTIMIZED: Fast strategy analysis for bulk construction
@@ -1370,8 +1365,6 @@ impl<T: PackedInt> IntVec<T> {
         }
 
         // Pre-allocate index with golden ratio growth
-        // SAFETY: samples has num_blocks elements (pushed in the loop above), num_blocks >= 1
-        let sample_min = *samples.iter().min().unwrap();
         let index_bits = num_blocks * sample_width as usize;
         let index_bytes = (index_bits + 7) / 8;
         let index_capacity = ((index_bytes * 103) / 64).max(index_bytes);
@@ -1381,8 +1374,8 @@ impl<T: PackedInt> IntVec<T> {
         let mut bit_offset = 0;
         
         for &sample in &samples {
-            let offset_sample = sample - sample_min;
-            self.write_bits_bulk(&mut index_data, offset_sample, bit_offset, sample_width)?;
+            // absolute block minimum: get_block_based adds sample + offset
+            self.write_bits_bulk(&mut index_data, sample, bit_offset, sample_width)?;
             bit_offset += sample_width as usize;
         }
 
@@ -1679,9 +1672,10 @@ impl<T: PackedInt> IntVec<T> {
         }
 
         // SAFETY: samples has num_blocks elements (len >= 64, so num_blocks >= 1)
-        let sample_min = *samples.iter().min().unwrap();
+        // The reader reconstructs a value as sample + offset and no base is kept
+        // alongside the strategy, so samples are stored as absolute block minima
         let sample_max = *samples.iter().max().unwrap();
-        let sample_width = BitOps::compute_bit_width(sample_max - sample_min);
+        let sample_width = BitOps::compute_bit_width(sample_max);
 
         // Analyze offset values within blocks
         let mut max_offset = 0u64;
@@ -1841,9 +1835,7 @@ impl<T: PackedInt> IntVec<T> {
             samples.push(block_min);
         }
 
-        // Compress samples
-        // SAFETY: samples has num_blocks elements (pushed in the loop above), num_blocks >= 1
-        let sample_min = *samples.iter().min().unwrap();
+        // Compress samples (absolute block minima: get_block_based adds sample + offset)
         let index_bits = num_blocks * sample_width as usize;
         let index_bytes = (index_bits + 7) / 8;
         let index_aligned = (index_bytes + 15) & !15;
@@ -1852,8 +1844,7 @@ impl<T: PackedInt> IntVec<T> {
         let mut bit_offset = 0;
         
         for &sample in &samples {
-            let offset_sample = sample - sample_min;
-            self.write_bits(&mut index_data, offset_sample, bit_offset, sample_width)?;
+            self.write_bits(&mut index_data, sample, bit_offset, sample_width)?;
             bit_offset += sample_width as usize;
         }
 
